@@ -25,11 +25,19 @@ RULE = ('histories of handler callbacks (update_received, on_update_error, open_
 ASSUMPTIONS = ['crashes are modelled at file level: the log directory is what survives (fsync after every record is the code under test)',
                'simplejson stand-in encodes bytes as UTF-8 text like simplejson and raises on other bytes']
 SHARD_TIMEOUT = {'quick': 400, 'thorough': 2400}
-PEER = '10.0.0.2'
+PEERS = ['10.0.0.2', '10.0.0.2', '2001:db8::2', '2001:DB8::2']       # the address as written in the configuration
+CUR = dict(peer='10.0.0.2', step=[1.0])
+
+
+def pdir():
+    """the directory the log of the current peer lives in (the handler lower-cases the address)"""
+    return CUR['peer'].lower()
 
 
 class FakeFactory(object):
-    peer_addr = PEER
+    @property
+    def peer_addr(self):
+        return CUR['peer']
 
 
 class FakePeer(object):
@@ -46,7 +54,7 @@ class Exited(Exception):
 def new_handler(root, max_size, write_keepalive=False):
     """what the agent does at start: options, DefaultHandler(), init()"""
     from vlib import world as W
-    W.configure(65001, 65002, '10.0.0.1', PEER, {}, {}, {'write_disk': True, 'write_dir': root + '/', 'write_keepalive': write_keepalive}, {})
+    W.configure(65001, 65002, '10.0.0.1', CUR['peer'], {}, {}, {'write_disk': True, 'write_dir': root + '/', 'write_keepalive': write_keepalive}, {})
     from yabgp import config as yconfig
     yconfig.get_bgp_config()
     CONF.message.write_msg_max_size = max_size
@@ -99,7 +107,8 @@ def payload(kind, rng):
 
 def fire(h, kind, rng, peer):
     """invoke one real callback; returns True if the callback is one that logs"""
-    reactor._now += 1.0
+    # events arrive whole seconds or fractions of a second apart (file names are made from the clock)
+    reactor._now += rng.choice(CUR['step'])
     t = 1700000000.0 + reactor._now
     if kind in ('update', 'update_big', 'update_bytes', 'update_tuplekey', 'update_selfref', 'update_object'):
         h.update_received(peer, t, payload(kind, rng))
@@ -118,7 +127,7 @@ def fire(h, kind, rng, peer):
     elif kind == 'conn_lost':
         h.on_connection_lost(peer)
     elif kind == 'conn_failed':
-        h.on_connection_failed(PEER, 'Connection was refused by other side.')
+        h.on_connection_failed(CUR['peer'], 'Connection was refused by other side.')
     elif kind == 'keepalive':
         h.keepalive_received(peer, t)
         return bool(CONF.message.write_keepalive)
@@ -127,7 +136,7 @@ def fire(h, kind, rng, peer):
 
 def audit(root):
     """returns (problems, lines, last_seq, nfiles)"""
-    d = os.path.join(root, PEER, 'msg')
+    d = os.path.join(root, pdir(), 'msg')
     files = sorted(glob.glob(os.path.join(d, '*.msg')), key=lambda p: os.path.basename(p))
     problems = []
     prev = 0
@@ -163,7 +172,7 @@ def audit(root):
 
 def count_lines(root):
     n = 0
-    for f in glob.glob(os.path.join(root, PEER, 'msg', '*.msg')):
+    for f in glob.glob(os.path.join(root, pdir(), 'msg', '*.msg')):
         with open(f, 'rb') as fh:
             n += fh.read().count(b'\n')
     return n
@@ -194,7 +203,9 @@ def run_shard(sh):
             max_size = rng.choice([10 ** 9, 10 ** 9, 600, 2000, 300])
             wk = rng.random() < 0.3
             hist = [rng.choice(EVENTS) for _ in range(rng.randint(3, 12))]
-            rep = dict(history=hist, max_size=max_size, write_keepalive=wk, seed=sh['seed'], hi=hi)
+            CUR['peer'] = rng.choice(PEERS)
+            CUR['step'] = rng.choice([[1.0], [1.0], [0.05, 0.25, 0.3, 1.0], [0.011, 0.09, 0.4], [0.000001, 0.5, 3.0]])
+            rep = dict(history=hist, max_size=max_size, write_keepalive=wk, seed=sh['seed'], hi=hi, peer=CUR['peer'], steps=CUR['step'])
             peer = FakePeer()
             reactor.reset()
             try:
@@ -204,7 +215,7 @@ def run_shard(sh):
                 continue
             for k, ev in enumerate(hist):
                 n0 = count_lines(root)
-                f0 = len(glob.glob(os.path.join(root, PEER, 'msg', '*.msg')))
+                f0 = len(glob.glob(os.path.join(root, pdir(), 'msg', '*.msg')))
                 feats = ['event:' + ev]
                 try:
                     logs = fire(h, ev, rng, peer)
@@ -214,7 +225,7 @@ def run_shard(sh):
                 res['counters']['events'] += 1
                 res['counters']['unserialisable_payloads'] += ev in ('update_bytes', 'update_tuplekey', 'update_selfref', 'update_object')
                 n1 = count_lines(root)
-                res['counters']['rotations_forced'] += max(0, len(glob.glob(os.path.join(root, PEER, 'msg', '*.msg'))) - f0)
+                res['counters']['rotations_forced'] += max(0, len(glob.glob(os.path.join(root, pdir(), 'msg', '*.msg'))) - f0)
                 if n1 - n0 != (1 if logs else 0):
                     bad('lines-per-event', feats, 'callback %s appended %d lines' % (ev, n1 - n0), rep)
                 probs, nl, last, nf = audit(root)
@@ -226,7 +237,7 @@ def run_shard(sh):
                 # ---------------- crash points after this event
                 res['evaluations'] += 1
                 cps = [('clean', None)]
-                newest = sorted(glob.glob(os.path.join(root, PEER, 'msg', '*.msg')))[-1]
+                newest = sorted(glob.glob(os.path.join(root, pdir(), 'msg', '*.msg')))[-1]
                 size = os.path.getsize(newest)
                 with open(newest, 'rb') as fh:
                     data = fh.read()
@@ -242,7 +253,7 @@ def run_shard(sh):
                     snap = os.path.join(base, 'snap')
                     shutil.rmtree(snap, ignore_errors=True)
                     shutil.copytree(root, snap)
-                    d = os.path.join(snap, PEER, 'msg')
+                    d = os.path.join(snap, pdir(), 'msg')
                     expect_lines = nl
                     if cp == 'torn':
                         with open(os.path.join(d, os.path.basename(newest)), 'r+b') as fh:
